@@ -8,12 +8,13 @@ Local Open Scope Z_scope.
 Record clp_state := mkClp {
   cs_bank : bank;
   cs_pools : store pool;            (* key: external asset id *)
-  cs_lps : store lprov;             (* key: lpkey asset addr *)
+  cs_lps : store (store lprov);     (* asset id -> address id -> provider *)
   cs_buckets : store Z;             (* rewards buckets: denom id -> amount *)
   cs_accu : Z;                      (* block distribution accumulator *)
   cs_reward_periods : list reward_period;
   cs_lppd_periods : list lppd_period;
-  cs_height : Z
+  cs_height : Z;
+  cs_params : clp_params
 }.
 #[export] Instance eta_clp : Settable _ :=
-  settable! mkClp <cs_bank; cs_pools; cs_lps; cs_buckets; cs_accu; cs_reward_periods; cs_lppd_periods; cs_height>.
+  settable! mkClp <cs_bank; cs_pools; cs_lps; cs_buckets; cs_accu; cs_reward_periods; cs_lppd_periods; cs_height; cs_params>.
